@@ -394,7 +394,9 @@ structure Cfg where
   litSmallest : Bool := false
   /-- repair: FOR bounds are converted exactly (no `ULINT as i64` wrap, no i64 counter) -/
   forExact : Bool := false
-  /-- repair: an array subscript is converted exactly (no `ULINT as i64` wrap in `index_to_i64`) -/
+  /-- exact subscript conversion.  `index_to_i64` saturates a ULINT above `i64::MAX` to `i64::MAX`
+  (c336de3); the difference is unreachable in an accepted program — array bounds are untyped
+  literals, which the lowering limits to `i32` — so no repair in the driver uses this switch -/
   idxExact : Bool := false
 
 /-- The code as it is. -/
@@ -467,9 +469,9 @@ def writeName (σ : Store) (x : String) (v : Val) : Store :=
   | some _ => { σ with vars := insert x v σ.vars }
   | none => { σ with globals := insert x v σ.globals }
 
-/-- `eval/expr/access.rs: index_to_i64` — ULINT is cast with `as i64`. -/
+/-- `eval/expr/access.rs: index_to_i64` — a ULINT above `i64::MAX` saturates to `i64::MAX`. -/
 def indexToI64 (cfg : Cfg) : Val → M Int
-  | .i .ulint x => pure (if cfg.idxExact || decide (x ≤ i64Max) then x else x - 18446744073709551616)
+  | .i .ulint x => pure (if cfg.idxExact || decide (x ≤ i64Max) then x else i64Max)   -- c336de3: `try_from(v).unwrap_or(i64::MAX)`
   | .i _ x => pure x
   | .b _ => fault .TypeMismatch .indexNotInt
 
